@@ -28,7 +28,7 @@ one() {
   fi
   if [ "$kind" = fire ]; then
     props=$prop
-    for e in $expect; do q=${e%%.*}; case ",$props," in *",$q,"*) ;; *) props="$props,$q";; esac; done
+    for e in $expect; do q=${e%%.*}; case ",$ALLPROPS," in *",$q,"*) ;; *) continue;; esac; case ",$props," in *",$q,"*) ;; *) props="$props,$q";; esac; done
     "$BIN" -property "$props" -tier quick -repo "$T/repo" -verif "$HERE" -out "$T/out" > "$T/log" 2>&1
     hit=""
     for e in $expect; do if grep -q "^  rule $e" "$T/log"; then hit="$hit $e"; fi; done
